@@ -194,6 +194,16 @@ def enum_tarballs(seed):
                     os.symlink("real", os.path.join(src, "ln1"))
                 if not os.path.lexists(os.path.join(src, "ln2")):
                     os.symlink("ln1", os.path.join(src, "ln2"))
+            # a symlink whose name is the beginning of its siblings' names (lib -> lib64 next to lib64/ and libexec/): only what lies *below*
+            # the link is reached through it
+            if s % 3 == 0:
+                os.makedirs(os.path.join(src, "usr/lib64/sub"), exist_ok=True)
+                os.makedirs(os.path.join(src, "usr/libexec"), exist_ok=True)
+                open(os.path.join(src, "usr/lib64/libfoo.so.1"), "w").write("ELF")
+                open(os.path.join(src, "usr/lib64/sub/data"), "w").write("D")
+                open(os.path.join(src, "usr/libexec/helper"), "w").write("#!")
+                if not os.path.lexists(os.path.join(src, "usr/lib")):
+                    os.symlink("lib64", os.path.join(src, "usr/lib"))
             # device nodes (character and block), when the sandbox lets us create them
             if rnd.random() < .5:
                 import stat as _st
